@@ -61,10 +61,16 @@ var hC05Undef = []hC05Tmpl{
 	{id: "prologue-then-personality", pre: "@a = global i32 0\ndeclare i32 @p(...)\ndefine void @f() prologue i32* @", post: " personality i8* bitcast (i32 (...)* @p to i8*) {\n\tret void\n}\n", defined: "a"},
 	{id: "comdat-then-prefix", pre: "$a = comdat any\n@z = global i32 1\ndefine void @f() comdat($", post: ") prefix i32* @z {\n\tret void\n}\n", defined: "a"},
 	{id: "attrgroup", pre: "define void @f() #", post: " {\n\tret void\n}\nattributes #0 = { nounwind }\n", defined: "0", digit: true, accept: true},
+	// a named type written inside an attribute (parameter, function, attribute group, call site)
+	{id: "type-in-param-attr", pre: "%a = type { i32 }\ndeclare void @f(%a* byval(%", post: "))\n", defined: "a"},
+	{id: "type-in-func-attr", pre: "%a = type { i32 }\ndeclare void @f() preallocated(%", post: ")\n", defined: "a"},
+	{id: "type-in-attrgroup-attr", pre: "%a = type { i32 }\ndeclare void @f() #0\nattributes #0 = { preallocated(%", post: ") }\n", defined: "a"},
+	{id: "type-in-call-attr", pre: "%a = type { i32 }\ndeclare void @g()\ndefine void @f() {\n\tcall void @g() preallocated(%", post: ")\n\tret void\n}\n", defined: "a"},
+	{id: "type-in-call-arg-attr", pre: "%a = type { i32 }\ndeclare void @g(%a*)\ndefine void @f(%a* %p) {\n\tcall void @g(%a* sret(%", post: ") %p)\n\tret void\n}\n", defined: "a"},
 }
 
-var hC05UndefIDs = [...]string{"C05.type.undefined-is-error", "C05.type-alias.undefined-is-error", "C05.global.undefined-is-error", "C05.callee.undefined-is-error", "C05.local.undefined-is-error", "C05.label.undefined-is-error", "C05.phi-pred.undefined-is-error", "C05.comdat.undefined-is-error", "C05.blockaddress-func.undefined-is-error", "C05.blockaddress-block.undefined-is-error", "C05.uselistorder.undefined-is-error", "C05.uselistorder-blockaddress.undefined-is-error", "C05.uselistorder-bb.undefined-is-error", "C05.metadata-attachment.undefined-is-error", "C05.metadata-tuple.undefined-is-error", "C05.metadata-named.undefined-is-error", "C05.metadata-di-field.undefined-is-error", "C05.blockaddress-declared-func.undefined-is-error", "C05.blockaddress-other-func-label.undefined-is-error", "C05.blockaddress-operand.undefined-is-error", "C05.blockaddress-metadata.undefined-is-error", "C05.local-other-func.undefined-is-error", "C05.label-other-func.undefined-is-error", "C05.alias-target.undefined-is-error", "C05.ifunc-resolver.undefined-is-error", "C05.personality.undefined-is-error", "C05.invoke-label.undefined-is-error", "C05.switch-label.undefined-is-error", "C05.type-in-signature.undefined-is-error", "C05.comdat-func.undefined-is-error", "C05.metadata-func-attachment.undefined-is-error", "C05.metadata-inst-attachment.undefined-is-error", "C05.comdat-then-personality.undefined-is-error", "C05.prefix-then-prologue.undefined-is-error", "C05.prologue-then-personality.undefined-is-error", "C05.comdat-then-prefix.undefined-is-error", "C05.attrgroup.undefined-is-materialised"}
-var hC05DefIDs = [...]string{"C05.type.defined-is-accepted", "C05.type-alias.defined-is-accepted", "C05.global.defined-is-accepted", "C05.callee.defined-is-accepted", "C05.local.defined-is-accepted", "C05.label.defined-is-accepted", "C05.phi-pred.defined-is-accepted", "C05.comdat.defined-is-accepted", "C05.blockaddress-func.defined-is-accepted", "C05.blockaddress-block.defined-is-accepted", "C05.uselistorder.defined-is-accepted", "C05.uselistorder-blockaddress.defined-is-accepted", "C05.uselistorder-bb.defined-is-accepted", "C05.metadata-attachment.defined-is-accepted", "C05.metadata-tuple.defined-is-accepted", "C05.metadata-named.defined-is-accepted", "C05.metadata-di-field.defined-is-accepted", "C05.blockaddress-declared-func.defined-is-accepted", "C05.blockaddress-other-func-label.defined-is-accepted", "C05.blockaddress-operand.defined-is-accepted", "C05.blockaddress-metadata.defined-is-accepted", "C05.local-other-func.defined-is-accepted", "C05.label-other-func.defined-is-accepted", "C05.alias-target.defined-is-accepted", "C05.ifunc-resolver.defined-is-accepted", "C05.personality.defined-is-accepted", "C05.invoke-label.defined-is-accepted", "C05.switch-label.defined-is-accepted", "C05.type-in-signature.defined-is-accepted", "C05.comdat-func.defined-is-accepted", "C05.metadata-func-attachment.defined-is-accepted", "C05.metadata-inst-attachment.defined-is-accepted", "C05.comdat-then-personality.defined-is-accepted", "C05.prefix-then-prologue.defined-is-accepted", "C05.prologue-then-personality.defined-is-accepted", "C05.comdat-then-prefix.defined-is-accepted", "C05.attrgroup.defined-is-accepted"}
+var hC05UndefIDs = [...]string{"C05.type.undefined-is-error", "C05.type-alias.undefined-is-error", "C05.global.undefined-is-error", "C05.callee.undefined-is-error", "C05.local.undefined-is-error", "C05.label.undefined-is-error", "C05.phi-pred.undefined-is-error", "C05.comdat.undefined-is-error", "C05.blockaddress-func.undefined-is-error", "C05.blockaddress-block.undefined-is-error", "C05.uselistorder.undefined-is-error", "C05.uselistorder-blockaddress.undefined-is-error", "C05.uselistorder-bb.undefined-is-error", "C05.metadata-attachment.undefined-is-error", "C05.metadata-tuple.undefined-is-error", "C05.metadata-named.undefined-is-error", "C05.metadata-di-field.undefined-is-error", "C05.blockaddress-declared-func.undefined-is-error", "C05.blockaddress-other-func-label.undefined-is-error", "C05.blockaddress-operand.undefined-is-error", "C05.blockaddress-metadata.undefined-is-error", "C05.local-other-func.undefined-is-error", "C05.label-other-func.undefined-is-error", "C05.alias-target.undefined-is-error", "C05.ifunc-resolver.undefined-is-error", "C05.personality.undefined-is-error", "C05.invoke-label.undefined-is-error", "C05.switch-label.undefined-is-error", "C05.type-in-signature.undefined-is-error", "C05.comdat-func.undefined-is-error", "C05.metadata-func-attachment.undefined-is-error", "C05.metadata-inst-attachment.undefined-is-error", "C05.comdat-then-personality.undefined-is-error", "C05.prefix-then-prologue.undefined-is-error", "C05.prologue-then-personality.undefined-is-error", "C05.comdat-then-prefix.undefined-is-error", "C05.attrgroup.undefined-is-materialised", "C05.type-in-param-attr.undefined-is-error", "C05.type-in-func-attr.undefined-is-error", "C05.type-in-attrgroup-attr.undefined-is-error", "C05.type-in-call-attr.undefined-is-error", "C05.type-in-call-arg-attr.undefined-is-error"}
+var hC05DefIDs = [...]string{"C05.type.defined-is-accepted", "C05.type-alias.defined-is-accepted", "C05.global.defined-is-accepted", "C05.callee.defined-is-accepted", "C05.local.defined-is-accepted", "C05.label.defined-is-accepted", "C05.phi-pred.defined-is-accepted", "C05.comdat.defined-is-accepted", "C05.blockaddress-func.defined-is-accepted", "C05.blockaddress-block.defined-is-accepted", "C05.uselistorder.defined-is-accepted", "C05.uselistorder-blockaddress.defined-is-accepted", "C05.uselistorder-bb.defined-is-accepted", "C05.metadata-attachment.defined-is-accepted", "C05.metadata-tuple.defined-is-accepted", "C05.metadata-named.defined-is-accepted", "C05.metadata-di-field.defined-is-accepted", "C05.blockaddress-declared-func.defined-is-accepted", "C05.blockaddress-other-func-label.defined-is-accepted", "C05.blockaddress-operand.defined-is-accepted", "C05.blockaddress-metadata.defined-is-accepted", "C05.local-other-func.defined-is-accepted", "C05.label-other-func.defined-is-accepted", "C05.alias-target.defined-is-accepted", "C05.ifunc-resolver.defined-is-accepted", "C05.personality.defined-is-accepted", "C05.invoke-label.defined-is-accepted", "C05.switch-label.defined-is-accepted", "C05.type-in-signature.defined-is-accepted", "C05.comdat-func.defined-is-accepted", "C05.metadata-func-attachment.defined-is-accepted", "C05.metadata-inst-attachment.defined-is-accepted", "C05.comdat-then-personality.defined-is-accepted", "C05.prefix-then-prologue.defined-is-accepted", "C05.prologue-then-personality.defined-is-accepted", "C05.comdat-then-prefix.defined-is-accepted", "C05.attrgroup.defined-is-accepted", "C05.type-in-param-attr.defined-is-accepted", "C05.type-in-func-attr.defined-is-accepted", "C05.type-in-attrgroup-attr.defined-is-accepted", "C05.type-in-call-attr.defined-is-accepted", "C05.type-in-call-arg-attr.defined-is-accepted"}
 
 // VfC05_Undefined
 //
